@@ -1542,6 +1542,9 @@ instance : KeepRel SameTab where
 theorem same_sameFileDefset : Keeps SameTab sameFileDefset := by
   unfold sameFileDefset currentDefsetId withSM
   keeps
+theorem same_defDefset : Keeps SameTab defDefset := by
+  unfold defDefset sameFileDefset currentDefsetId currentMulticlassId withSM
+  keeps
 theorem same_indexNameValue (v : PTree) : Keeps SameTab (indexNameValue v) := by
   unfold indexNameValue utilsIdentifier
   keeps
@@ -1559,6 +1562,9 @@ instance : KeepRel SameDefs where
 
 theorem defs_sameFileDefset : Keeps SameDefs sameFileDefset := by
   unfold sameFileDefset currentDefsetId withSM
+  keeps
+theorem defs_defDefset : Keeps SameDefs defDefset := by
+  unfold defDefset sameFileDefset currentDefsetId currentMulticlassId withSM
   keeps
 theorem defs_indexNameValue (v : PTree) : Keeps SameDefs (indexNameValue v) := by
   unfold indexNameValue utilsIdentifier
@@ -2049,8 +2055,8 @@ theorem indexDefG_step (cenv : CEnv) (chk : PTree → Option Env) (gv : Env) (xt
         by rw [s8.2.2.1, ← hinv7.newest], hcl⟩
   unfold indexDef at hrun
   obtain ⟨ds, c1, h1, hrun⟩ := IxM.run_bind_ok hrun
-  have p1 : SameTab c c1 := same_sameFileDefset.run _ _ _ h1
-  have q1 : SameDefs c c1 := defs_sameFileDefset.run _ _ _ h1
+  have p1 : SameTab c c1 := same_defDefset.run _ _ _ h1
+  have q1 : SameDefs c c1 := defs_defDefset.run _ _ _ h1
   dsimp only at hrun
   split at hrun
   all_goals
